@@ -34,7 +34,8 @@ REQUIRED = {"all": ["regime:uncharged", "regime:one_charge_type", "regime:no_neu
 NMAX = {"quick": 24, "thorough": 40}
 NRANDOM = {"quick": 120, "thorough": 1200}
 EXTRA_THOROUGH = [(1000, 136, 0)]
-EXTRA = [(1, 10, 25), (10, 1, 25), (2, 12, 30), (1, 6, 18), (3, 3, 17), (3, 3, 18), (3, 3, 19), (1, 1, 18), (5, 2, 18), (2, 5, 30), (4, 4, 24), (10, 10, 17),
+EXTRA = [(30, 0, 18), (0, 40, 20), (45, 0, 25), (1, 16, 6), (1, 20, 10), (2, 28, 8), (16, 1, 12), (1, 20, 18), (20, 1, 18), (5, 1, 18),
+         (1, 5, 18), (13, 1, 37), (1, 10, 25), (10, 1, 25), (2, 12, 30), (1, 6, 18), (3, 3, 17), (3, 3, 18), (3, 3, 19), (1, 1, 18), (5, 2, 18), (2, 5, 30), (4, 4, 24), (10, 10, 17),
          (10, 12, 18), (0, 7, 18), (7, 0, 18), (20, 0, 20), (0, 25, 25), (25, 25, 0), (30, 20, 0), (6, 6, 40)]
 
 
